@@ -5,6 +5,7 @@ package main
 import (
 	"fmt"
 	"go/ast"
+	"go/constant"
 	"go/token"
 	"go/types"
 	"sort"
@@ -121,7 +122,8 @@ func ruleFoldErrAgree(c *Ctx, rule string) {
 	}
 	for _, fn := range []string{"binaryopInts", "binaryopFloats"} {
 		fd := l.Decl(methodObj(p.Types, "SimpleOptimizer", fn))
-		if !c.Anchor(rule, "SimpleOptimizer."+fn, fd != nil) {
+		ssaFn := l.Method(modPath, "SimpleOptimizer", fn)
+		if !c.Anchor(rule, "SimpleOptimizer."+fn, fd != nil && ssaFn != nil) {
 			continue
 		}
 		ast.Inspect(fd.Body, func(n ast.Node) bool {
@@ -165,33 +167,43 @@ func ruleFoldErrAgree(c *Ctx, rule string) {
 				if !(hasErr && hasRet) {
 					continue
 				}
-				// the clause must test the right operand's value and decline
-				declines := false
-				for _, s := range cl.Body {
-					ifs, ok := s.(*ast.IfStmt)
-					if !ok {
-						continue
+				// the arithmetic of the clause must be guarded (on every feasible
+				// path) by a test of its right operand whose other side declines
+				// (every return reachable from it has `false` as second result)
+				var ops []*ssa.BinOp
+				if ssaFn != nil {
+					eachInstr(ssaFn, func(ins ssa.Instruction) {
+						if bo, ok := ins.(*ssa.BinOp); ok && bo.Pos() >= cl.Pos() && bo.Pos() < cl.End() {
+							switch bo.Op {
+							case token.EQL, token.NEQ, token.LSS, token.LEQ, token.GTR, token.GEQ:
+							default:
+								ops = append(ops, bo)
+							}
+						}
+					})
+				}
+				declines := len(ops) > 0
+				for _, op := range ops {
+					found := false
+					for _, g := range guardEdges(op.Block()) {
+						cmp, ok := g.If.Cond.(*ssa.BinOp)
+						if !ok {
+							continue
+						}
+						if !(exprEq(cmp.X, op.Y) || exprEq(cmp.Y, op.Y)) {
+							continue
+						}
+						gb := g.If.Block()
+						other := gb.Succs[0]
+						if g.Truth {
+							other = gb.Succs[1]
+						}
+						if allReturnsDecline(other, op.Block()) {
+							found = true
+						}
 					}
-					testsRight := false
-					ast.Inspect(ifs.Cond, func(m ast.Node) bool {
-						if be, ok := m.(*ast.BinaryExpr); ok {
-							if litKindOfValue(info, be.X) != "" || litKindOfValue(info, be.Y) != "" {
-								testsRight = true
-							}
-						}
-						return true
-					})
-					returnsFalse := false
-					ast.Inspect(ifs.Body, func(m ast.Node) bool {
-						if r, ok := m.(*ast.ReturnStmt); ok && len(r.Results) == 2 {
-							if tv, ok := info.Types[r.Results[1]]; ok && tv.Value != nil && tv.Value.String() == "false" {
-								returnsFalse = true
-							}
-						}
-						return true
-					})
-					if testsRight && returnsFalse {
-						declines = true
+					if !found {
+						declines = false
 					}
 				}
 				c.Check(rule, fmt.Sprintf("%s | %s %s", fn, kind, tokName[k]), l.Pos(cl.Pos()), declines, "declines under a test of the operand, like the VM's error path",
@@ -385,7 +397,7 @@ func ruleRegisterAll(c *Ctx, rule string, pf *poolFacts) {
 		_, ok = isFieldAddrOf(u.X, modPath, "vmPool", pf.fVMs)
 		return ok
 	}
-	_, ok := mustPassBefore(pf.acquire.Blocks[0].Instrs[0], via, isReturn)
+	_, ok := mustPassBefore(pf.acquire.Blocks[0].Instrs[0], viaDeep(via), isReturn)
 	c.Check(rule, fnName(pf.acquire)+" | registers the child", l.Pos(pf.acquire.Pos()), ok, "vms[vm] is stored on every path", "a child VM can be handed out without being registered in the pool: Abort never reaches it and Run hangs while a Go callback executes a long script function on it")
 	// and every creation path of a child goes through that function
 	for _, ci := range l.StaticCallers(pf.acquire) {
@@ -612,13 +624,19 @@ func ruleRegistryDir(c *Ctx, rule string) {
 // error): no element is skipped.
 func ruleLoopCover(c *Ctx, rule string) {
 	l := c.L
+	convNames := map[string]bool{"ToObject": true, "ToObjectAlt": true, "ToInterface": true}
 	for _, name := range []string{"ToObject", "ToObjectAlt", "ToInterface"} {
 		fn := l.Func(modPath, name)
 		if fn == nil {
 			continue
 		}
-		// element stores: MapUpdate / store through IndexAddr into a container made in this function
-		eachInstr(fn, func(ins ssa.Instruction) {
+		// element stores: MapUpdate / store through IndexAddr into a container
+		// made in this function (or in a helper it calls: each function's
+		// loops are judged in that function)
+		eachInstrDeep(fn, 2, func(ins ssa.Instruction) {
+			if host := ins.Parent(); host != fn && (convNames[host.Name()] || funcPkgPath(host) != modPath) {
+				return
+			}
 			var isElemStore bool
 			switch x := ins.(type) {
 			case *ssa.MapUpdate:
@@ -680,7 +698,11 @@ func ruleLoopCover(c *Ctx, rule string) {
 			if bodyEntry != nil {
 				walk(bodyEntry)
 			}
-			c.Check(rule, fmt.Sprintf("%s | element loop at %s", name, tstrOfStore(ins)), l.Pos(ins.Pos()), !offending, "every iteration stores the converted element or returns an error", "an iteration of the element loop can continue without storing the element: the result keeps a nil slot (not undefined) that panics when used")
+			where := name
+			if host := ins.Parent(); host != fn {
+				where = host.Name()
+			}
+			c.Check(rule, fmt.Sprintf("%s | element loop at %s", where, tstrOfStore(ins)), l.Pos(ins.Pos()), !offending, "every iteration stores the converted element or returns an error", "an iteration of the element loop can continue without storing the element: the result keeps a nil slot (not undefined) that panics when used")
 		})
 	}
 }
@@ -1134,4 +1156,37 @@ func impureOperand(info *types.Info, x ast.Expr) bool {
 		return true // the operand is computed from the value before the operator is applied
 	}
 	return false
+}
+
+// allReturnsDecline: at least one return is reachable from blk, every such
+// return has the constant false as its second result, and `avoid` is not
+// reachable from blk.
+func allReturnsDecline(blk, avoid *ssa.BasicBlock) bool {
+	seen := map[*ssa.BasicBlock]bool{blk: true}
+	work := []*ssa.BasicBlock{blk}
+	n := 0
+	for len(work) > 0 {
+		x := work[len(work)-1]
+		work = work[:len(work)-1]
+		if x == avoid {
+			return false
+		}
+		if r, ok := x.Instrs[len(x.Instrs)-1].(*ssa.Return); ok {
+			n++
+			if len(r.Results) != 2 {
+				return false
+			}
+			k, ok := r.Results[1].(*ssa.Const)
+			if !ok || k.Value == nil || k.Value.Kind() != constant.Bool || constant.BoolVal(k.Value) {
+				return false
+			}
+		}
+		for _, s := range x.Succs {
+			if !seen[s] {
+				seen[s] = true
+				work = append(work, s)
+			}
+		}
+	}
+	return n > 0
 }
